@@ -36,6 +36,7 @@ fn spec_renew(me: Id) -> Option<Id> {
                     addr: me.addr,
                     gen: me.gen + 1,
                     renew: me.renew,
+                    pad: [0; 2],
                 })
             } else {
                 None
